@@ -133,6 +133,18 @@ func init() {
 				"totpMatchedCounter":                   {lean: "ext.matched", ret: []string{"int", "bool"}, effect: "KM.GoTypes.TotpEffect.eval"},
 				"state.SaveUserProfile":                {lean: "ext.saveResult", ret: []string{"error"}, effect: "KM.GoTypes.TotpEffect.saveProfile"}},
 			retLean: "(Bool × Option KM.Go.Err) × List KM.GoTypes.TotpEffect"},
+		// C16 / C05: consumeLoginChallenge — compare and remove the pending hardware-token challenge under one lock
+		glTarget{pkg: "cmd/keymasterd", name: "consumeLoginChallenge", group: "Chal",
+			binders:   "(stored : KM.GoTypes.localUserData × Bool)",
+			paramLean: map[string]string{"used": "KM.GoTypes.localUserData"},
+			traceLean: "KM.GoTypes.ChalEffect",
+			paths: map[string][2]string{
+				"state.localAuthData[username]": {"stored", "localUserData,bool"}},
+			externs: map[string]glExtern{
+				"state.Mutex.Lock":   {lean: "()", ret: []string{}, args: []int{}, effect: "KM.GoTypes.ChalEffect.lock"},
+				"state.Mutex.Unlock": {lean: "()", ret: []string{}, args: []int{}, effect: "KM.GoTypes.ChalEffect.unlock"},
+				"delete":             {lean: "()", ret: []string{}, args: []int{1}, effect: "KM.GoTypes.ChalEffect.delete"}},
+			retLean: "Bool × List KM.GoTypes.ChalEffect"},
 		// C09: unsealCA — the whole injection step under the mutex
 		glTarget{pkg: "cmd/keymasterd", name: "unsealCA", group: "Seal",
 			binders:   "(ext : KM.GoTypes.SealExt) (signerSet : Bool) (hasEdFile : Bool)",
